@@ -214,7 +214,10 @@ ServerSees(w, cmds) ==
   ELSE
   LET r == w.reqs[ri]
       w1 == Chk(w, ~r.seen, "C01", "request sent to the server twice")
-      w2 == Chk(w1, r.cmds = cmds, "C01", "request reached the server with different commands than issued")
+      w2a == Chk(w1, r.cmds = cmds, "C01", "request reached the server with different commands than issued")
+      \* (C13) the list the caller issued arrived in pieces: this block holds a proper part of its commands
+      w2 == Chk(w2a, ~(Len(cmds) < Len(r.cmds) /\ \E o \in 0..(Len(r.cmds) - Len(cmds)) : SubSeq(r.cmds, o + 1, o + Len(cmds)) = cmds),
+                "C13", "a command list was not written as ONE command_list_ok_begin ... command_list_end block holding all its commands")
       \* per-caller order: every earlier request of this caller was already seen
       w3 == Chk(w2, \A j \in 1..Len(w.reqs) : (w.reqs[j].c = c /\ w.reqs[j].n < n) => w.reqs[j].seen,
                 "C01", "requests of one caller reached the server out of issue order")
